@@ -26,6 +26,7 @@ type tmplCfg struct {
 	symEnable bool     // enabled flags symbolic (else true)
 	links     [][2]int // explicit endpoints (indices into the node list) for the first len(links) genes
 	biasFree  bool     // with fixedBase: the second base gene is input->last node, so the bias sensor is unconnected
+	lateInput bool     // an additional input sensor with the LAST id (sensors need not come first in a genome)
 }
 
 func tTraits(tag string, c tmplCfg) []*neat.Trait {
@@ -84,6 +85,11 @@ func tNodes(tag string, ts []*neat.Trait, c tmplCfg) []*network.NNode {
 		nodes = append(nodes, n)
 		id++
 	}
+	if c.lateInput {
+		late := network.NewSensorNode(id, false)
+		late.Trait = tPickTrait(tag+".late", ts, false, false, 0)
+		nodes = append(nodes, late)
+	}
 	return nodes
 }
 
@@ -92,6 +98,9 @@ func tGenes(tag string, ts []*neat.Trait, nodes []*network.NNode, c tmplCfg) []*
 	genes := make([]*Gene, 0, c.genes)
 	prev := 0
 	nonSensors := len(nodes) - 2
+	if c.lateInput {
+		nonSensors--
+	}
 	for i := 0; i < c.genes; i++ {
 		var inN, outN *network.NNode
 		if i < len(c.links) {
